@@ -425,6 +425,58 @@ def processStructOuts (dimAware : Bool) (ps : Path) (params : List (String × St
   let r := handleOuts dimAware ps params kvs outsPath fs1
   (.obj r.1, r.2)
 
+/-! ## The verification gate in front of post-processing
+
+A stage or pipeline fork can only complete when its outputs pass
+`LazyArgumentMap.ValidateOutputs` (`Fork.verifyOutput` /
+`verifyPipelineOutput` → `Type.IsValidJson`).  For a typed map,
+`TypedMapType.IsValidJson` (collection_types.go) demands of the KEYS: when the
+map is a directory kind (`s.IsFile() == KindIsDirectory`, i.e. its element type
+contains a file type: a file, an array of files, a struct with files, a map of
+those …) every key must be a legal file name; and it descends into every entry
+(`ArrayType` into every element, `StructType` into every declared member).
+`keysVerified` is that demand, as a function of (type, value); everything else
+the gate checks (value kinds) is not modelled. -/
+
+/-- arrays of `k+1` dimensions whose innermost elements satisfy `f` -/
+def keysArr (f : J → Bool) : Nat → J → Bool
+  | 0, v =>
+    match v with
+    | .arr xs => xs.all f
+    | _ => true
+  | k + 1, v =>
+    match v with
+    | .arr xs => xs.all (keysArr f k)
+    | _ => true
+
+/-- one typed-map value: legal keys when the map is a directory kind, entries satisfy `f` -/
+def keysMap (dir : Bool) (f : J → Bool) (v : J) : Bool :=
+  match v with
+  | .obj kvs => (!dir || kvs.all (fun kv => legalName kv.1)) && kvs.all (fun kv => f kv.2)
+  | _ => true
+
+mutual
+/-- what output verification demands of typed-map keys in a value of type `ty` -/
+def keysVerified : Ty → J → Bool
+  | .scalar, _ => true
+  | .file _, _ => true
+  | .arr e k, v => keysArr (keysVerified e) k v
+  | .tmap e, v => keysMap (hasFile e) (keysVerified e) v
+  | .struct ms, v =>
+    match v with
+    | .obj kvs => keysVerifiedMs ms kvs
+    | _ => true
+def keysVerifiedMs : List (String × String × Ty) → List (String × J) → Bool
+  | [], _ => true
+  | (id, _, t) :: ms, kvs => keysVerified t ((lookupLast kvs id).getD .null) && keysVerifiedMs ms kvs
+end
+
+/-- the gate on a whole `_outs` record -/
+def recordKeysVerified (params : List (String × String × Ty)) (outs : J) : Bool :=
+  match outs with
+  | .obj kvs => keysVerifiedMs params kvs
+  | _ => true
+
 /-! ## Mapped top-level calls (`Fork.postProcess`, `*ArrayType` / `*TypedMapType` cases) -/
 
 /-- `Fork.postProcess` for a top-level call mapped over an array: `_outs` is an
@@ -437,13 +489,38 @@ def postArray (da : Bool) (ps : Path) (params : List (String × String × Ty)) (
     let rs := postArray da ps params outs (i + 1) xs r.2
     (r.1 :: rs.1, rs.2)
 
-/-- … over a typed map: record `k` goes to `outs/<k>`; Go iterates its map in
-no particular order — the driver uses the order given. -/
+/-- The directory of fork key `k` of a top-level call mapped over a typed map:
+`path.Join(outsPath, k)` for the clean absolute `outsPath` (regenerated as
+`Gen.postProcessForkDirs`).  `path.Join` drops empty elements, joins with `/`
+and applies `path.Clean`, so the key is NOT used as one path component: it is
+split at every `/`; empty components and `.` vanish (`""`, `"."`, `"a/"`,
+`"./a"`, `"a//b"`), `..` removes the component before it (`".."` is the
+pipestance directory itself, `"a/../b"` is `b`), and a key containing `/`
+names a directory nested below the directory of a shorter key.  For a key that
+is a legal file name this is `outs ++ [k]` (`joinKey_legal`). -/
+def joinKey (outs : Path) (k : String) : Path := cleanComps (splitSlash k.toList []) outs
+
+/-- neither path is a prefix of the other (decidable form of `Incomp`) -/
+def incompB (a b : Path) : Bool := !isPrefix a b && !isPrefix b a
+
+/-- The per-key directories of the fork keys `keys` are usable side by side:
+each lies at or below the outs directory, and they are pairwise incomparable
+(no two keys share a directory, none is nested inside another's). -/
+def keysSeparable (outs : Path) : List String → Bool
+  | [] => true
+  | k :: ks =>
+    isPrefix outs (joinKey outs k) && ks.all (fun k' => incompB (joinKey outs k) (joinKey outs k')) &&
+      keysSeparable outs ks
+
+/-- … over a typed map: record `k` goes to `joinKey outs k` (= `outs/<k>` for a
+key that is a legal file name); Go iterates its map in no particular order —
+the driver uses the order given (the harness reads the real order off the
+console log of the run it compares with). -/
 def postMap (da : Bool) (ps : Path) (params : List (String × String × Ty)) (outs : Path) :
     List (String × J) → FS → List (String × J) × FS
   | [], fs => ([], fs)
   | (k, x) :: xs, fs =>
-    let r := processStructOuts da ps params x (outs ++ [k]) fs
+    let r := processStructOuts da ps params x (joinKey outs k) fs
     let rs := postMap da ps params outs xs r.2
     ((k, r.1) :: rs.1, rs.2)
 
@@ -481,6 +558,46 @@ def recordAfterFault (w : RecordWriter) (old new : List UInt8) (k : Nat) : List 
   match w with
   | .atomic => if new.length + 1 < k then new else old
   | .inplace => if k = 0 then old else new.take (k - 1)
+
+/-! ### The two writers as operations on a file system of byte files
+
+Metadata files as byte strings (`BFS`).  The steps of `writeAtomicAt(dirFd,
+target, data)` (write_atomic_linux.go): `tmp := target + ".tmp"`;
+`writeFileAt(tmp)` = open with O_CREAT|O_TRUNC (the temp file exists, empty),
+then the bytes; `renameat(tmp, target)`.  A crash or an I/O error can stop the
+sequence after any number `k` of units of progress: unit 1 is the open, units
+`2 … n+1` the `n` bytes (a failed write leaves a prefix), unit `n+2` the rename.
+
+OS ASSUMPTION, stated once, as the semantics of `BFS.rename`: `rename(2)` is
+atomic — there is no observable state between "target holds what it held" and
+"target holds what the source held, the source name is gone". -/
+
+abbrev BFS := Path → Option (List UInt8)
+
+def BFS.set (fs : BFS) (p : Path) (b : List UInt8) : BFS := fun q => if q = p then some b else fs q
+
+/-- `rename(2)` of one file: atomic replacement (the OS assumption) -/
+def BFS.rename (fs : BFS) (src dst : Path) : BFS :=
+  fun q => if q = dst then fs src else if q = src then none else fs q
+
+/-- `target + ".tmp"`: the sibling with `.tmp` appended to the last component -/
+def tmpPath (target : Path) : Path := target.dropLast ++ [target.getLast?.getD "" ++ ".tmp"]
+
+/-- the file system after `k` units of progress of `writeAtomicAt` -/
+def writeAtomicCut (fs : BFS) (target : Path) (new : List UInt8) (k : Nat) : BFS :=
+  if k = 0 then fs
+  else if k ≤ new.length + 1 then fs.set (tmpPath target) (new.take (k - 1))
+  else (fs.set (tmpPath target) new).rename (tmpPath target) target
+
+/-- … of `os.WriteFile(target)` (`Write`/`WriteRaw`/`WriteRawBytes`): unit 1 is
+the open with O_TRUNC, units `2 … n+1` the bytes -/
+def writeInplaceCut (fs : BFS) (target : Path) (new : List UInt8) (k : Nat) : BFS :=
+  if k = 0 then fs else fs.set target (new.take (k - 1))
+
+def writeCut (w : RecordWriter) (fs : BFS) (target : Path) (new : List UInt8) (k : Nat) : BFS :=
+  match w with
+  | .atomic => writeAtomicCut fs target new k
+  | .inplace => writeInplaceCut fs target new k
 
 /-! ## The compile-time duplicate-name check (compile_types.go `StructType.compile`) -/
 
